@@ -1044,6 +1044,34 @@ var c06Delays = []int{0, 0, 0, 1, 2, 3, 4, 5, 7, 50, 150, 300, 306, 307, 308, 30
 func c06RandRigCase(r *rand.Rand, cores int, withFlush bool) c06RigCase {
 	var c c06RigCase
 	c.MemSize = 4096
+	if cores >= 2 && !withFlush && r.Intn(6) == 0 {
+		// L3 capacity eviction (MVP-8: 32 lines of 128 bytes) of a line that one core wrote in ONE 64-byte half
+		// and another core still holds Shared: the dirty L3 line must reach memory, else the Shared copy
+		// differs from its next level. Core 0 writes, core 1 reads it back, the last core then sweeps over
+		// 34-40 other 128-byte blocks.
+		c.MemSize = 8192
+		x := int32(r.Intn(8)*128 + r.Intn(2)*64 + r.Intn(16)*4)
+		c.Ops = append(c.Ops, c06Op{Core: 0, Kind: "w", Addr: x, Width: 4, Delay: r.Intn(3), Val: int32(r.Uint32())})
+		c.Ops = append(c.Ops, c06Op{Core: 1, Kind: "r", Addr: x - x%4, Width: 4, Delay: 700 + r.Intn(40)})
+		sw := cores - 1 // the sweeping core must not be the one that keeps the Shared copy (core 1)
+		if sw == 1 {
+			sw = 0
+		}
+		n := 34 + r.Intn(7)
+		for j := 0; j < n; j++ {
+			d := r.Intn(3)
+			if j == 0 {
+				d = 1500 + r.Intn(100)
+			}
+			k := "r"
+			if r.Intn(6) == 0 {
+				k = "w"
+			}
+			c.Ops = append(c.Ops, c06Op{Core: sw, Kind: k, Addr: int32(1024 + j*128 + r.Intn(32)*4), Width: 4, Delay: d, Val: int32(r.Uint32())})
+		}
+		c.Ops = append(c.Ops, c06Op{Core: 0, Kind: "r", Addr: x - x%4, Width: 4, Delay: 100 + r.Intn(50)})
+		return c
+	}
 	var lines []int32
 	switch r.Intn(4) {
 	case 0:
@@ -1115,7 +1143,7 @@ func c06RigStream(name string, withFlush bool) streamFn {
 				c := c06RandRigCase(r, cores, withFlush)
 				lines := []c06Line{{c06RigCaseLine(i, c), "case"}}
 				for k, v := range c06Variants {
-					lines = append(lines, c06RunRig(i*3+k, i, v, cores, c, 400, 40000)...)
+					lines = append(lines, c06RunRig(i*3+k, i, v, cores, c, 400, 60000)...)
 				}
 				out[i] = lines
 			}(i)
